@@ -6,6 +6,7 @@ members can be applied both to a live system and to the spec (so that 'freshly b
 is a second build of the edited spec).  Nothing here is ever counted as proved.
 """
 from __future__ import annotations
+import os
 import copy as _copy, itertools, logging, math, os, random, sys, uuid, warnings
 from datetime import datetime, timedelta
 
@@ -447,12 +448,42 @@ def has_shared_job(spec):
     return any(len(v) > 1 for v in job_usage_patterns(spec).values())
 
 
+CASE_TIMEOUT_S = int(os.environ.get("VF_CASE_TIMEOUT", "300"))
+TIMEOUTS = []       # cases of the last runs that did not finish within CASE_TIMEOUT_S (never a verdict: reported as undecided by vf.check)
+_FN = [None]
+
+
+class CaseTimeout(BaseException):
+    """not an Exception: library code catching Exception must not swallow it"""
+
+
+def _alarm(*_a): raise CaseTimeout()
+
+
+def _guarded(x):
+    import signal
+    signal.signal(signal.SIGALRM, _alarm); signal.alarm(CASE_TIMEOUT_S)
+    try:
+        return ("ok", _FN[0](x))
+    except CaseTimeout:
+        return ("timeout", repr(x)[:300])
+    finally:
+        signal.alarm(0)
+
+
 def run_parallel(fn, items, procs=16):
+    """map fn over items in a fork pool; every case runs under a wall-clock limit (a case of a few seconds that does not come back
+    within CASE_TIMEOUT_S is dropped from the results and listed in TIMEOUTS)"""
     import multiprocessing as mp
-    if procs <= 1 or len(items) <= 1: return [fn(x) for x in items]
-    ctx = mp.get_context("fork")
-    with ctx.Pool(min(procs, len(items))) as pool:
-        return pool.map(fn, items, chunksize=max(1, len(items) // (procs * 4)))
+    _FN[0] = fn
+    if procs <= 1 or len(items) <= 1:
+        raw = [_guarded(x) for x in items]
+    else:
+        ctx = mp.get_context("fork")
+        with ctx.Pool(min(procs, len(items))) as pool:
+            raw = pool.map(_guarded, items, chunksize=max(1, len(items) // (procs * 4)))
+    TIMEOUTS.extend(r[1] for r in raw if r[0] == "timeout")
+    return [r[1] for r in raw if r[0] == "ok"]
 
 
 def build_services_system(video_resolution="720p (1280 x 720)", technology="php-symfony", provider="openai", model_name="gpt-3.5-turbo-1106",
